@@ -10,7 +10,7 @@ Definition fresh3 (s : state) (i : Z) : Prop :=
 
 Definition pc2_fact (s : state) : Prop :=
   match pc s with
-  | HWritten bs _ | OWritten _ bs => forall b, In b bs -> fresh3 s (b_id b)
+  | HWritten bs _ | OWritten _ bs | VWritten bs _ => forall b, In b bs -> fresh3 s (b_id b)
   | BWritten b ps => fresh3 s (b_id b) /\ ~ In (b_id b) ps /\ to_close s = []
   | _ => True
   end.
@@ -111,6 +111,18 @@ Proof.
     | exact K8
     | exact K9
     | exact K10 ].
+  - 
+    constructor; unfold fresh3, has_q, pc2_fact; cbn;
+    [ exact K1
+    | intros b Hb; apply in_app_or in Hb; destruct Hb as [Hb|Hb]; [exact (K2 b Hb) | exact (K7 b Hb)]
+    | exact K3
+    | exact K4
+    | intros x0 b0 Hx St; exfalso; apply St; eapply all_done_spec; eauto
+    | exact K6
+    | exact Logic.I
+    | exact K8
+    | exact K9
+    | exact K10 ].
 Qed.
 
 Lemma inv2_EBlockClosing s s' id : Inv2 s -> step s (EBlockClosing id) = Some s' -> Inv2 s'.
@@ -125,7 +137,7 @@ Proof.
   | exact K4
   | exact K5
   | intros i [<-|?]; auto
-  | destruct (pc s); auto; [ intros b Hb; destruct (K7 b Hb) as (A & B & D); repeat split; auto; intros [E|?]; [apply A; rewrite <- E; exact G1 | auto] | intros b Hb; destruct (K7 b Hb) as (A & B & D); repeat split; auto; intros [E|?]; [apply A; rewrite <- E; exact G1 | auto] | destruct K7 as ((A & B & D) & F2 & F3); repeat split; auto; intros [E|?]; [apply A; rewrite <- E; exact G1 | auto] ]
+  | destruct (pc s); auto; [ intros b Hb; destruct (K7 b Hb) as (A & B & D); repeat split; auto; intros [E|?]; [apply A; rewrite <- E; exact G1 | auto] | intros b Hb; destruct (K7 b Hb) as (A & B & D); repeat split; auto; intros [E|?]; [apply A; rewrite <- E; exact G1 | auto] | destruct K7 as ((A & B & D) & F2 & F3); repeat split; auto; intros [E|?]; [apply A; rewrite <- E; exact G1 | auto] | intros b Hb; destruct (K7 b Hb) as (A & B & D); repeat split; auto; intros [E|?]; [apply A; rewrite <- E; exact G1 | auto] ]
   | exact K8
   | exact K9
   | exact K10 ].
@@ -158,7 +170,7 @@ Proof.
     | intros x b Hx Hb [E|?]; [apply (NP (q_id x)); rewrite E; auto | eapply K4; eauto]
     | exact K5
     | intros i Hi; apply filter_In in Hi; destruct Hi as [Hi M]; apply filter_In; split; auto
-    | destruct (pc s); auto; [ intros b Hb; apply FR; apply K7; assumption | intros b Hb; apply FR; apply K7; assumption | destruct K7 as (F1 & F2 & F3); split; [apply FR; assumption | split; auto; rewrite F3; reflexivity] ]
+    | destruct (pc s); auto; [ intros b Hb; apply FR; apply K7; assumption | intros b Hb; apply FR; apply K7; assumption | destruct K7 as (F1 & F2 & F3); split; [apply FR; assumption | split; auto; rewrite F3; reflexivity] | intros b Hb; apply FR; apply K7; assumption ]
     | exact K8
     | exact K9
     | exact K10 ]. }
@@ -347,6 +359,16 @@ Proof.
     split; auto. split.
     + intros Hp. apply N. rewrite forallb_forall in G2. apply memZ_true. apply G2; auto.
     + destruct (to_close s); auto; discriminate.
+  - (* EVWritten *)
+    destruct (pc s) eqn:P; try discriminate; apply guard_some in H as [G ->];
+      rewrite !andb_true_iff in G; frame2 s; unfold pc2_fact; cbn;
+      intros b [<-|[]]; cbn.
+    + destruct G as [[_ G2] _]. apply negb_true_iff in G2. apply not_in_all_ids in G2. tauto.
+    + destruct G as [[[_ G2] _] _]. apply negb_true_iff in G2. apply not_in_all_ids in G2. tauto.
+  - (* EVAwaited *)
+    destruct (pc s); try discriminate; apply guard_some in H as [G ->]; frame2 s; exact Logic.I.
+  - (* EVEvicted *)
+    destruct (pc s); try discriminate; apply guard_some in H as [G ->]; frame2 s; exact Logic.I.
   - eapply inv2_EQBegin; eauto.
   - eapply inv2_EQOpenHead; eauto.
   - eapply inv2_EQFinish; eauto.
@@ -409,5 +431,5 @@ Proof.
     try discriminate;
     try (destruct (0 <? L) eqn:GL; try discriminate);
     inv H; cbn [step]; unfold all_done, guard;
-    rewrite ?P, ?TC, ?CL, ?Q, ?ISO, ?RD, ?PD; cbn; rewrite ?Z.eqb_refl, ?GL; cbn; try discriminate.
+    rewrite ?P, ?TC, ?CL, ?Q, ?ISO, ?RD, ?PD; cbn; rewrite ?Z.eqb_refl, ?Z.leb_refl, ?GL; cbn; try discriminate.
 Qed.
